@@ -70,7 +70,7 @@ def pos_cases(draw):
         hdr = {"alg": alg, "enc": enc, **hdr}
         if alg in rjwe.PBES2:
             hdr["p2c"] = 16
-    keymode = draw(st.sampled_from(["key", "key", "keyset", "keyset_kid", "callable"]))
+    keymode = draw(st.sampled_from(["key", "key", "keyset", "keyset_kid", "callable", "decode-with-single-key-set"]))
     if keymode == "keyset_kid":
         hdr["kid"] = "the-key"
     return {"kind": "pos", "claims": claims, "dt": dt, "transport": transport, "header": hdr, "key": gk.key_to_record(key),
@@ -125,7 +125,10 @@ def run_pos(case) -> dict:
     jwe_t = case["transport"] == "jwe"
     enc_key, dec_key = (pub, priv) if jwe_t else (priv, pub)
 
-    def arg(k):
+    def arg(k, decoding=False):
+        if case["keymode"] == "decode-with-single-key-set":
+            # encoded with the plain key (no kid anywhere); the consumer holds a key set with exactly that key
+            return KeySet([k]) if decoding else k
         if case["keymode"] == "key":
             return k
         if case["keymode"] == "callable":
@@ -150,7 +153,7 @@ def run_pos(case) -> dict:
     if header != before:
         f[f"C09:encode-alters-callers-header:{tag}"] = f"header given {before!r} is {header!r} after jwt.encode (key mode {case['keymode']})"
     try:
-        tok = jwt.decode(token, arg(dec_key), **kw)
+        tok = jwt.decode(token, arg(dec_key, True), **kw)
     except Exception as e:
         f[f"C09:decode-raises:{tag}:{exc_key(e)}"] = f"{type(e).__name__}: {e}"
         return f
